@@ -51,13 +51,16 @@ def run(F, R):
         raise Undecided('no public owning-queue method invokes a handler closure')
     for b in polls:
         q1_poll(F, R, M, b, roles, byrole)
-    # drivers that pop and re-add their own event buffers (input)
+    # drivers that pop and re-add their own event buffers (input); the queue calls may sit in private helpers
+    reached = roles_reached(F, roles)
+    # ... of the drivers whose constructor stocks a queue in a loop
+    stocked = set(b.get('impl_adt') for b in F.bodies.values() if F.handwritten(b) and b['kind'] == 'AssocFn' and has_loop(b)
+                  and '-> core::result::Result<' + (b.get('impl_adt') or '?') in b.get('sig', '') and 'add' in reached.get(b['id'], set()))
+    stocked.discard(None)
     for b in F.bodies.values():
         if not F.handwritten(b) or b['kind'] != 'AssocFn' or b.get('impl_adt') in (M.queue_adt, M.owning_adt) or not b.get('pub'):
             continue
-        sg0 = supergraph(F, b['id'], tag='flat', max_depth=0)
-        fns = [n.d.get('fn') for n in sg0.calls()]
-        if any(f in byrole.get('peek_used', []) for f in fns) and any(f in byrole['pop_used'] for f in fns) and any(f in byrole['add'] for f in fns):
+        if {'peek_used', 'pop_used', 'add'} <= reached.get(b['id'], set()) and b.get('impl_adt') in stocked:
             q1_pop_readd(F, R, M, b, roles, byrole)
     q5_stocking(F, R, M, roles, byrole)
     q4b_exposure_table(F, R, M, roles)
@@ -144,8 +147,22 @@ def q1_poll(F, R, M, b, roles, byrole):
     R.check(not bad, 'Q4', '%s:checked-slices' % b['id'], where, 'only checked indexing / slicing on the delivery path', 'unchecked indexing on the delivery path')
 
 
-def deep_terms_effects(p, t):
-    """Values of locals referenced by t, from the path's final environment."""
+def deep_terms_effects(p, t, depth=3, _seen=None):
+    """Values of locals referenced by t (transitively, a few levels), from the path's final environment."""
+    out = []
+    _seen = set() if _seen is None else _seen
+    for x in _deep_terms_once(p, t):
+        k = id(x)
+        if k in _seen:
+            continue
+        _seen.add(k)
+        out.append(x)
+        if depth > 1:
+            out.extend(deep_terms_effects(p, x, depth - 1, _seen))
+    return out
+
+
+def _deep_terms_once(p, t):
     out = []
     for x in subterms(t):
         if x[0] == 'loc' and x[1][0] == 'local':
@@ -303,6 +320,25 @@ def q6_no_access_after_post(F, R, M, roles, rule='Q6', only=None):
     R.count('post_sites', nsites)
 
 
+def _peel_option(t):
+    """Option adaptors that keep the variant (copied, cloned, as_ref, as_mut, as_deref)."""
+    while t[0] == 'call' and t[3] and t[2].rsplit('::', 1)[-1] in ('copied', 'cloned', 'as_ref', 'as_mut', 'as_deref', 'as_deref_mut') \
+            and 'option::Option' in t[2]:
+        t = t[3][0]
+    return t
+
+
+def _range_of(t):
+    """(start, end) terms of a half-open range aggregate; None for the missing start of `..end`."""
+    if t[0] != 'agg':
+        return None
+    if t[1].endswith('::Range') and len(t[2]) == 2:
+        return (t[2][0], t[2][1])
+    if t[1].endswith('::RangeTo') and len(t[2]) == 1:
+        return (None, t[2][0])
+    return None
+
+
 def q4b_exposure_table(F, R, M, roles):
     n = 0
     for b in F.bodies.values():
@@ -323,6 +359,8 @@ def q4b_exposure_table(F, R, M, roles):
         rows = 0
         for L in (0, 1, B - 1, B, B + 1, 2 * B, 4096, 0xffffffff):
             def leaf(t, L=L):
+                if t[0] == 'discr':
+                    t = ('discr', _peel_option(t[1]))
                 if t[0] == 'discr' and t[1][0] == 'call':
                     r = roles.get(t[1][2])
                     if r == 'peek_used':
@@ -330,7 +368,12 @@ def q4b_exposure_table(F, R, M, roles):
                     if r == 'pop_used':
                         return 0
                     if t[1][2].endswith('::get_mut') or t[1][2].endswith('::get'):
-                        return 1
+                        rg = _range_of(t[1][3][1]) if len(t[1][3]) > 1 else None
+                        if rg is None:
+                            return 1
+                        # a checked sub-slice of the slot: Some iff the range lies within the buffer
+                        lo, hi = (0 if x is None else fo.ev(x) for x in rg)
+                        return 1 if lo <= hi <= B else 0
                 if t[0] == 'field' and t[1][0] == 'downcast' and t[1][1][0] == 'call' and roles.get(t[1][1][2]) == 'pop_used':
                     return L
                 if t[0] == 'field' and t[1][0] == 'downcast' and t[1][1][0] == 'call' and roles.get(t[1][1][2]) == 'peek_used':
@@ -349,9 +392,9 @@ def q4b_exposure_table(F, R, M, roles):
             p = hit[0]
             ev = err_variant(p.ret)
             if L <= B:
-                rng = [x for x in subterms(p.ret) if x[0] == 'agg' and x[1].endswith('::Range')] if p.ret else []
+                rng = [r for r in (_range_of(x) for x in subterms(p.ret)) if r] if p.ret else []
                 try:
-                    got = (fo.ev(rng[0][2][0]), fo.ev(rng[0][2][1])) if rng else None
+                    got = (0 if rng[0][0] is None else fo.ev(rng[0][0]), fo.ev(rng[0][1])) if rng else None
                 except Unfoldable as e:
                     bad = 'unfoldable: %s' % e
                     break
